@@ -126,16 +126,17 @@ func (f *mConfigFSM) StoreConfiguration(index uint64, c Configuration) {
 func vh_fsm_pairing() {
 	r, _ := vNewRaft("a", vRaftOpts{n: 1})
 	var calls *[]mFSMCall
+	var base *mFSM
 	switch vChoose("fsm", 0, 2) {
 	case 0:
 		f := &mFSM{}
-		r.fsm, calls = f, &f.calls
+		r.fsm, calls, base = f, &f.calls, f
 	case 1:
 		f := &mBatchFSM{}
-		r.fsm, calls = f, &f.calls
+		r.fsm, calls, base = f, &f.calls, &f.mFSM
 	case 2:
 		f := &mConfigFSM{}
-		r.fsm, calls = f, &f.calls
+		r.fsm, calls, base = f, &f.calls, &f.mFSM
 	}
 	n := vChoose("n", 1, 2+vTier())
 	var batch []*commitTuple
@@ -161,6 +162,9 @@ func vh_fsm_pairing() {
 			fut.init()
 		}
 		batch = append(batch, &commitTuple{l, fut})
+		if fut != nil {
+			base.watch = append(base.watch, fut)
+		}
 	}
 	r.fsmMutateCh <- batch
 	vAssertNoPanic("C02.fsm.no-panic")
@@ -200,6 +204,8 @@ func vh_fsm_pairing() {
 		}
 	}
 	vAssert(ci == len(*calls), "C02.fsm.nothing-else-applied")
+	// a future (Barrier in particular) is answered only after every earlier entry of the batch reached the FSM
+	vAssert(!base.early, "C08.fsm.no-future-answered-before-earlier-entries-applied")
 	vAssert(len(r.fsmMutateCh) == 0, "C02.fsm.batch-consumed")
 	vReach("fsm.end")
 }
